@@ -357,6 +357,7 @@ func (w *treeW) catch() {
 	if p == nil {
 		return
 	}
+	passThrough(p)
 	op := w.inCall
 	if op == "" {
 		panic(p)
